@@ -39,7 +39,7 @@ Pipe(h, i) ==
       ran    |-> ins # <<>>,
       \* how the pipeline ended
       okval  |-> IF fbs # <<>> THEN (IF fbs[1].out = "ok" THEN fbs[1].val ELSE -1)
-                 ELSE IF outs # <<>> /\ Last(outs).out = "ok" THEN Last(outs).val ELSE -1,
+                 ELSE IF outs # <<>> /\ Last(outs).out \in {"ok", "nil"} THEN Last(outs).val ELSE -1,
       fberr  |-> IF fbs # <<>> /\ fbs[1].out = "err" THEN fbs[1].err ELSE 0,
       \* the exec function returned an error Result with a nil error: that Result is the item's outcome
       eres   |-> IF fbs = <<>> /\ outs # <<>> /\ Last(outs).out = "eres" THEN Last(outs).err ELSE 0,
@@ -96,6 +96,10 @@ PipeFbOK(cfg, p) ==
         /\ p.outs[m].err \in Range(p.fbs[1].errseen)
         /\ \A k \in 1..(m - 1) : p.outs[k].err \notin Range(p.fbs[1].errseen))
 
+\* the lists handed to post belong to that run: a later run of the same node object does not change them
+ListsKept(D) == \A k \in 1..Len(D.h) : D.h[k].ev = "bpostagain" =>
+                   HasPost(D) /\ D.h[k].slots = D.posts[1].slots /\ D.h[k].items = D.posts[1].items
+
 (* ---------------------------------------------------------------------- *)
 (* C06  positional correspondence; post sees all, once                     *)
 (* ---------------------------------------------------------------------- *)
@@ -127,6 +131,8 @@ C06_Clauses(cfg, D) ==
    allSettled |-> HasPost(D) =>
                    /\ \A i \in 1..cfg.n : D.pipes[i].endpos < D.postpos[1]
                    /\ \A i \in 1..cfg.n : Len(D.pipes[i].ins) = Len(D.pipes[i].outs),
+   \* the lists handed to post belong to that run: a later run of the same node object does not change them
+   listsKept  |-> ListsKept(D),
    \* every exec call received its own item, unchanged
    itemArg    |-> \A i \in 1..cfg.n : \A k \in 1..Len(D.pipes[i].ins) :
                      D.pipes[i].ins[k].arg = 1000 * i /\ D.pipes[i].ins[k].aid
@@ -142,6 +148,8 @@ C07_Clauses(cfg, D) ==
    everyItemOnce |-> Applies => \A i \in 1..cfg.n :
                         Cardinality({k \in 1..Len(D.pipes[i].ins) : D.pipes[i].ins[k].k = 1}) = (IF N(cfg) >= 1 THEN 1 ELSE 0),
    pipeShape     |-> Applies => \A i \in 1..cfg.n : PipeShapeOK(D.pipes[i]),
+   \* (an item's slot keeps holding that item's outcome also after the node object has run again)
+   slotKept      |-> ListsKept(D),
    budget        |-> Applies => \A i \in 1..cfg.n :
                         LET p == D.pipes[i] IN
                         /\ PipeBudgetOK(cfg, p)
@@ -271,7 +279,7 @@ C17B_Clauses(cfg, D) ==
   [itemToExec |-> c.itemArg,
    \* every item prep produced - also one that already is an error Result - is handed to the exec function
    everyItemReachesExec |-> (~cfg.stopmode /\ ~Cancelled(D) /\ PrepOk(D) /\ N(cfg) >= 1) => \A i \in 1..cfg.n : D.pipes[i].ran,
-   execToSlot |-> c.slotOutcome /\ c.noForeign]
+   execToSlot |-> c.slotOutcome /\ c.noForeign /\ ListsKept(D)]
 
 \* the batch part of C04: prep and post errors are returned transparently, item errors stay in slots
 C04B_Clauses(cfg, D) ==
